@@ -36,6 +36,6 @@ Definition shared_sx (prog : rule) : sx :=
   | None => SZ 2
   end.
 
-(* [Gb; has_next; shared; next_rule only at the root and on disjoint bindings; in the proved fragment] *)
+(* [Gb; has_next; shared; next_rule in the level of a later sibling refinement (unsettled reading); in the proved fragment] *)
 Definition fragW_sx (prog : rule) (W : list elem) : sx :=
-  SL [SB (Gb prog); SB (has_next prog); shared_sx prog; SB (shape_ok (tree_of prog) W); SB (Fb prog)].
+  SL [SB (Gb prog); SB (has_next prog); shared_sx prog; SB (later_ref_next prog); SB (Fb prog)].
